@@ -549,6 +549,10 @@ impl Model for SM {
             .lock()
             .unwrap()
             .push(format!("I:{}:{}", self.id, ns(cx.time())));
+        self.log
+            .lock()
+            .unwrap()
+            .push(format!("N:{}:{}", self.id, canon_name(cx.name())));
         let spec = self.spec.clone();
         self.exec(&spec.init, 0, cx).await;
         self.into()
